@@ -54,6 +54,22 @@ let wstring ((neg, optv), l) =
 let rec pairup = function a :: b :: t -> (a, b) :: pairup t | _ -> []
 let garbage = zs "-123456789012345678901234567890"
 
+(* ---- scripted random source (ModelScript): the script is threaded through the extracted functions; for the complete
+   factorisations the successive calls of iffactorprime / primefactor consume it in call order *)
+let fuel_rho = nat_of_int 100000
+let fuel_loop = nat_of_int 64
+let used (ys : Model.z list) (rest : Model.z list) = string_of_int (List.length ys - List.length rest)
+let sres ys = function None -> "NONE" | Some (g, rest) -> sz g ^ " | " ^ used ys rest ^ " 0"
+let sres3 ys = function None -> "NONE" | Some ((g, rest), passes) -> sz g ^ " | " ^ used ys rest ^ " 0 # " ^ sz passes
+let ip_res ys = function None -> "NONE" | Some (g, rest) -> sz g ^ " 1 | " ^ used ys rest ^ " 0"
+let ip_res3 ys = function None -> "NONE" | Some ((g, rest), passes) -> sz g ^ " 1 | " ^ used ys rest ^ " 0 # " ^ sz passes
+let threaded (ys : Model.z list) (f : Model.z list -> Model.z -> ((Model.z * Model.z list) * Model.z) option) =
+  let st = ref ys and passes = ref [] in
+  let ifp nn = match f !st nn with
+    | None -> None
+    | Some ((g, rest), k) -> st := rest; passes := sz k :: !passes; Some g in
+  (ifp, (fun () -> " | " ^ used ys !st ^ " 0 # " ^ String.concat "," (List.rev !passes)))
+
 let () = run_lines (fun toks ->
   match toks with
   | op :: args ->
@@ -95,7 +111,33 @@ let () = run_lines (fun toks ->
                      | Some (((neg, optv), l) as w) ->
                        "[" ^ wstring w ^ "] " ^ (match optv with Some v -> sz v | None -> zlist (List.map fst l)))
      | "divisors.n" -> (match Model.divisors_of_model (replay (rest 1)) fuel_f a.(0) with None -> "NONE" | Some l -> zlist l)
-     | "divisors.lf" -> zlist (Model.divisors_model (pairup (rest 0)))
+     | "divisors.lf" | "divisors.lf.alias" -> zlist (Model.divisors_model (pairup (rest 0)))
+     | "nextrange.alias" -> zrange (Model.nextprime_model isp fuel_np true) a.(0) a.(1)
+     | "prevrange.alias" -> zrange (Model.prevprime_model isp fuel_np true) a.(0) a.(1)
+     | "pprevrange.alias" -> zrange (Model.protected_prevprime_model lp fuel_np) a.(0) a.(1)
+     | "ipp.alias" -> (match Model.isprimepower_model isp root (nat_of_int 16) fuel_ipp a.(0) a.(0) with
+                       | None -> "NONE" | Some (e, q) -> sz e ^ " " ^ sz q)
+     (* s.<op> n thr y1 y2 ... *)
+     | "s.pollard" -> let ys = rest 2 in sres ys (Model.pollard_s isp fuel_loop fuel_rho ys a.(0) a.(1))
+     | "s.factor" -> let ys = rest 2 in sres ys (Model.factor_s isp fuel_loop fuel_rho ys a.(0) a.(1))
+     | "s.iffactorprime" -> let ys = rest 2 in sres3 ys (Model.iffactorprime_s isp fuel_loop fuel_loop fuel_rho ys a.(0) a.(1))
+     | "s.primefactor" -> let ys = rest 2 in sres3 ys (Model.primefactor_s isp fuel_loop fuel_loop fuel_loop fuel_rho ys a.(0))
+     | "s.pollard.ip" -> let ys = rest 2 in ip_res ys (Model.pollard_inplace_s isp fuel_loop fuel_rho ys a.(0) a.(1))
+     | "s.factor.ip" -> let ys = rest 2 in ip_res ys (Model.factor_inplace_s isp fuel_loop fuel_rho ys a.(0) a.(1))
+     | "s.iffactorprime.ip" -> let ys = rest 2 in ip_res3 ys (Model.iffactorprime_inplace_s isp fuel_loop fuel_loop fuel_rho ys a.(0) a.(1))
+     | "s.set2" | "s.set2.list" ->
+       let (ifp, tail) = threaded (rest 2) (fun ys nn -> Model.iffactorprime_s isp fuel_loop fuel_loop fuel_rho ys nn a.(1)) in
+       (match Model.set2_model ifp fuel_f a.(0) with None -> "NONE" | Some (l, fl) -> (if fl then "1" else "0") ^ pairs l ^ tail ())
+     | "s.divisors" ->
+       let (ifp, tail) = threaded (rest 2) (fun ys nn -> Model.iffactorprime_s isp fuel_loop fuel_loop fuel_rho ys nn a.(1)) in
+       (match Model.divisors_of_model ifp fuel_f a.(0) with None -> "NONE" | Some l -> zlist l ^ tail ())
+     | "s.set1" ->
+       let (ifp, tail) = threaded (rest 2) (fun ys nn -> Model.primefactor_s isp fuel_loop fuel_loop fuel_loop fuel_rho ys nn) in
+       (match Model.set1_model ifp fuel_f a.(0) with None -> "NONE" | Some l -> zlist l ^ tail ())
+     | "s.write" ->
+       let (ifp, tail) = threaded (rest 2) (fun ys nn -> Model.primefactor_s isp fuel_loop fuel_loop fuel_loop fuel_rho ys nn) in
+       (match Model.write_model ifp fuel_f a.(0) with None -> "NONE" | Some w -> "[" ^ wstring w ^ "]" ^ tail ())
+     | "s.miller" -> ob (Model.miller_model (rest 2) a.(0))
      | "ipp" -> (match Model.isprimepower_model isp root (nat_of_int 16) fuel_ipp garbage a.(0) with
                  | None -> "NONE" | Some (e, q) -> sz e ^ " " ^ sz q)
      | _ -> "UNKNOWN-OP")
